@@ -392,10 +392,11 @@ class JnpWherePlugin(PrimitiveLeafPlugin):
         if value.const_value is not None:
             arr = const_value_to_numpy(value)
             if arr is not None and arr.dtype != target_dtype:
-                arr = arr.astype(target_dtype, copy=False)
-                value.const_value = ir.tensor(arr)
-                value.type = ir.TensorType(dtype_enum)
-                return value
+                # The constant may feed other nodes too (e.g. the comparison that
+                # produced the condition): cast a copy, do not retype it in place.
+                return ctx.bind_const_for_var(
+                    object(), np.asarray(arr.astype(target_dtype))
+                )
 
         dtype_enum = _dtype_to_ir(target_dtype, ctx.builder.enable_double_precision)
         builder = getattr(ctx, "builder", None)
